@@ -172,7 +172,7 @@ def run_meson(argv: T.Sequence[str], cwd: str, env: T.Optional[T.Dict[str, str]]
 
 def _slurp(p: str) -> str:
     try:
-        with open(p, 'r', encoding='utf-8', errors='surrogateescape') as f:
+        with open(p, 'r', encoding='utf-8', errors='surrogateescape', newline='') as f:
             s = f.read()
         os.unlink(p)
         return s
